@@ -1591,12 +1591,15 @@ def runtime_sample(ck: Check, thorough: bool):
     # (development machines are shared: wait for the machine-wide lock rather
     #  than skipping silently; on an idle machine it is free at once)
     t_lock = time.time()
-    with runtime_lock(1800 if thorough else 600) as got:
+    # C10_LOCK_WAIT_S: development override of the waiting time
+    wait_s = float(os.environ.get('C10_LOCK_WAIT_S',
+                                  1800 if thorough else 600))
+    with runtime_lock(wait_s) as got:
         ck.coverage['runtime_lock_wait_s'] = round(time.time() - t_lock, 1)
         if not got:
             ck.coverage['runtime_sample'] = (
                 'skipped: runtime lock busy for more than '
-                f'{1800 if thorough else 600} s')
+                f'{wait_s:g} s')
             print('C10: real-Compiler sample skipped, runtime lock busy')
             return
         t0 = time.time()
